@@ -141,6 +141,7 @@ class SimDatagramTransport(asyncio.DatagramTransport):
         self._conn_lost = 0
         self.sock_open = True  # until _call_connection_lost has run
         self.sent: List[Tuple[float, bytes]] = []
+        self._buffer: List[Tuple[bytes, tuple]] = []   # datagrams the OS refused with EAGAIN (send queue full)
         self.close_calls = 0
         self.abort_calls = 0
         if local_addr is not None:
@@ -176,6 +177,16 @@ class SimDatagramTransport(asyncio.DatagramTransport):
         if dst is None:
             raise ValueError("no destination")
         self.sent.append((self._loop.time(), bytes(data)))
+        gate = self._net.send_gate
+        until = gate(self, bytes(data)) if gate is not None else None
+        if self._buffer or until is not None:
+            # like _SelectorDatagramTransport: the datagram waits in the transport's buffer until the socket is writable
+            self._buffer.append((bytes(data), (dst[0], dst[1])))
+            self._net.count("fault_send_blocked")
+            self._net.log("send_blocked", self.sock_id)
+            if until is not None:
+                self._loop.call_at(until, self._sendto_ready)
+            return
         self._net.send(self, self._local, (dst[0], dst[1]), bytes(data))
 
     def close(self) -> None:
@@ -184,14 +195,28 @@ class SimDatagramTransport(asyncio.DatagramTransport):
             return
         self._closing = True
         self._net.log("sock_close", self.sock_id)
+        if self._buffer:
+            return          # asyncio keeps the socket until the buffer has been flushed (_sendto_ready)
         self._conn_lost += 1
         self._loop.call_soon(self._call_connection_lost, None)
+
+    def _sendto_ready(self) -> None:
+        """The socket became writable: flush what was buffered (a no-op after abort())."""
+        if self._conn_lost and not self._closing:
+            return
+        buf, self._buffer = self._buffer, []
+        for data, dst in buf:
+            self._net.send(self, self._local, dst, data)
+        if self._closing and buf and self.sock_open:
+            self._conn_lost += 1
+            self._call_connection_lost(None)
 
     def abort(self) -> None:
         self.abort_calls += 1
         self._force_close(None)
 
     def _force_close(self, exc: Optional[BaseException]) -> None:
+        self._buffer = []       # abort() drops what was not yet written
         if self._conn_lost:
             return
         if not self._closing:
@@ -279,6 +304,9 @@ class SimNetwork:
         self.partition_until = -1.0
         self._tag_counts: Dict[Any, int] = {}
         self.tag_latency: Optional[Callable[[str, tuple], Optional[int]]] = None
+        #: send_gate(transport, data) -> None (the OS accepts the datagram) or the virtual instant until which the
+        #: socket's send queue is full (EAGAIN): the transport buffers the datagram until then
+        self.send_gate: Optional[Callable[[Any, bytes], Optional[float]]] = None
 
     # bookkeeping --------------------------------------------------------
     def log(self, kind: str, *details: Any) -> None:
